@@ -960,6 +960,10 @@ int vorbis_encode_setup_managed(vorbis_info *vi,
   highlevel_encode_setup *hi;
   double tnominal;
   if(rate<=0) return OV_EINVAL;
+  /* a hard minimum above the hard maximum cannot be honoured; the
+     control interface (OV_ECTL_RATEMANAGE2_SET) refuses it as well */
+  if(max_bitrate>0 && min_bitrate>0 && min_bitrate>max_bitrate)
+    return OV_EINVAL;
 
   ci=vi->codec_setup;
   hi=&ci->hi;
